@@ -387,25 +387,14 @@ Proof. cbn. now rewrite orb_false_r. Qed.
 Lemma np_arange_len N : 0 <= N -> length (np_arange 0 N) = Z.to_nat N.
 Proof. intros. unfold np_arange. rewrite map_length, seq_length. f_equal. lia. Qed.
 
-Definition sptensor_mttkrp_stmt : Prop := forall s us n, guard_sptensor_mttkrp s us n = decide (pre_mttkrp s us n).
-(* C19-N09 repaired (the helper compares the column counts).  With matrices WITHOUT columns the loop over the columns never
-   runs and the row counts are not looked at (C19-N20, open) *)
-Theorem sptensor_mttkrp_refuted : ~ sptensor_mttkrp_stmt.
-Proof. intros H. specialize (H [2; 3; 4] [(2, 0); (5, 0); (4, 0)] 0). vm_compute in H. discriminate. Qed.
-
-Theorem sptensor_mttkrp_partial s us n :
-  0 < mttkrp_R us n ->
-  guard_sptensor_mttkrp s us n = decide (pre_mttkrp s us n).
+(* the loop over the columns (R > 0): column r of every matrix, then ttv with exclude_dims = n — it re-checks the row counts *)
+Lemma sptensor_mttkrp_loop s us n :
+  zlen us = ndim s -> in_range (ndim s) n = true -> mttkrp_cols_ok (ndim s) us n = true -> 0 < mttkrp_R us n ->
+  forallb (fun iu : Z * shp2 => (fst iu =? n) || (mttkrp_R us n <=? cols (snd iu))) (combine (np_arange 0 (ndim s)) us) &&
+  is_ok (guard_ttv_checks s (map (fun iu : Z * shp2 => if fst iu =? n then 0 else rows (snd iu)) (combine (np_arange 0 (ndim s)) us))
+                          None (Some [n])) = mttkrp_rows_ok s us n.
 Proof.
-  intros HR. pose proof (ndim_nonneg s) as HN. apply decide_by. rewrite pre_mttkrp_split.
-  unfold guard_sptensor_mttkrp, guard_mttkrp_factors. cbv zeta.
-  set (R := mttkrp_R us n) in *. okb.
-  destruct (Z.eqb_spec (zlen us) (ndim s)) as [El|El]; bsimpl; [|reflexivity].
-  destruct (in_range (ndim s) n) eqn:En; bsimpl; [|reflexivity].
-  rewrite (idx_ok_mttkrp (ndim s) us n El En).
-  destruct (Z.leb_spec 2 (ndim s)) as [H2|H2]; bsimpl; [|reflexivity].
-  destruct (mttkrp_cols_ok (ndim s) us n) eqn:B; bsimpl; [|reflexivity].
-  destruct (Z.leb_spec R 0); [lia|]. okb.
+  intros El En B HR. pose proof (ndim_nonneg s) as HN. set (R := mttkrp_R us n) in *.
   rewrite ttv_checks_decides, is_ok_decide. unfold pre_ttv, pre_tensor_ttv.
   set (ius := combine (np_arange 0 (ndim s)) us).
   set (vl := map (fun iu : Z * shp2 => if fst iu =? n then 0 else rows (snd iu)) ius).
@@ -447,6 +436,24 @@ Proof.
     rewrite Hnth. destruct (Z.eqb_spec m n); [contradiction|reflexivity].
 Qed.
 
+(* C19-N09 repaired (the helper compares the column counts) and C19-N20 repaired (the row counts are compared before the loop over
+   the columns, so matrices WITHOUT columns are no longer answered when a row count is wrong): exact for every request *)
+Theorem sptensor_mttkrp_decides s us n : guard_sptensor_mttkrp s us n = decide (pre_mttkrp s us n).
+Proof.
+  apply decide_by. rewrite pre_mttkrp_split.
+  unfold guard_sptensor_mttkrp, guard_mttkrp_factors. cbv zeta. okb. rewrite forallb_is_ok_chk.
+  change (forallb (fun iu : Z * shp2 => (fst iu =? n) || (rows (snd iu) =? sz s (fst iu))) (combine (np_arange 0 (ndim s)) us))
+    with (mttkrp_rows_ok s us n).
+  destruct (Z.eqb_spec (zlen us) (ndim s)) as [El|El]; bsimpl; [|reflexivity].
+  destruct (in_range (ndim s) n) eqn:En; bsimpl; [|reflexivity].
+  rewrite (idx_ok_mttkrp (ndim s) us n El En).
+  destruct (mttkrp_cols_ok (ndim s) us n) eqn:B; bsimpl; [|destruct (2 <=? ndim s), (mttkrp_rows_ok s us n); reflexivity].
+  destruct (mttkrp_rows_ok s us n) eqn:Rw; bsimpl; [|destruct (2 <=? ndim s); reflexivity].
+  destruct (2 <=? ndim s); bsimpl; [|reflexivity].
+  destruct (Z.leb_spec (mttkrp_R us n) 0) as [HR|HR]; [reflexivity|]. okb.
+  rewrite (sptensor_mttkrp_loop s us n El En B HR). exact Rw.
+Qed.
+
 (* ---- sptensor.extract (C19-N17 repaired: the column count is compared with the number of modes) ---- *)
 Theorem sptensor_extract_decides s subs :
   subs <> [] -> (forall row, In row subs -> zlen row = zlen (hd [] subs)) ->
@@ -484,17 +491,13 @@ Proof.
   rewrite np_arange_iota, !forallb_map. apply forallb_ext_in. intros j _. cbn [fst snd]. unfold sz. now rewrite !znth_nat.
 Qed.
 
-Definition from_aggregator_stmt : Prop := forall s subs nvals, guard_from_aggregator s subs nvals = decide (pre_sptensor_ctor s subs nvals).
-Theorem from_aggregator_refuted : ~ from_aggregator_stmt.
-Proof. intros H. specialize (H [2; 3] [] 2). vm_compute in H. discriminate. Qed.
-
-Theorem from_aggregator_partial s subs nvals :
+Theorem from_aggregator_hand_partial s subs nvals :
   all_pos s = true -> subs <> [] -> hd [] subs <> [] ->
   (forall row, In row subs -> zlen row = zlen (hd [] subs)) ->
-  guard_from_aggregator s subs nvals = decide (pre_sptensor_ctor s subs nvals).
+  guard_from_aggregator_hand s subs nvals = decide (pre_sptensor_ctor s subs nvals).
 Proof.
   intros Hpos Hne Hc Hrect. pose proof (ndim_nonneg s) as HN. apply decide_by.
-  unfold guard_from_aggregator, pre_sptensor_ctor, pre_subs.
+  unfold guard_from_aggregator_hand, pre_sptensor_ctor, pre_subs.
   assert (P1 : 0 < zlen subs) by (destruct subs; [congruence|unfold zlen; cbn; lia]).
   assert (P2 : 0 < zlen (hd [] subs)) by (destruct (hd [] subs); [congruence|unfold zlen; cbn; lia]).
   unfold vec in *. destruct (Z.eqb_spec (zlen subs * zlen (hd [] subs)) 0); [nia|]. okb. rewrite Hpos. cbn [andb].
